@@ -137,6 +137,27 @@ def math_sqrt (R : Rounding) (a : Val) : Val :=
   | flt q => if q < 0 then err else flt (R.mpSqrt 53 q)
   | _ => err
 
+/-- the double nearest to `1e-9` (`math.isclose`'s default `rel_tol`) -/
+def relTolLit : Rat := (4835703278458517 : Rat) / 4835703278458516698824704
+/-- `float(x)` of an `int`/`float` argument as `math.isclose` sees it -/
+def asF64 (R : Rounding) : Val → Option Rat
+  | int z => some (R.f64 z) | bool_ b => some (if b then 1 else 0) | flt q => some q | _ => Option.none
+/-- `math.isclose(a, b)` with the default `rel_tol=1e-09`, `abs_tol=0.0` on finite values (CPython's `math_isclose_impl`):
+equal values are close; otherwise `diff = fabs(b - a)` (one rounding) is compared with `fabs(rel_tol * b)` and
+`fabs(rel_tol * a)` (one rounding each) and with `abs_tol`.  Non-numeric arguments (a `TypeError`) are `false` here. -/
+def isclose (R : Rounding) (a b : Val) : Bool :=
+  match asF64 R a, asF64 R b with
+  | some x, some y =>
+    if x = y then true else
+    let diff := R.f64 (y - x)
+    let diff := if diff < 0 then -diff else diff
+    let rb := R.f64 (relTolLit * y)
+    let rb := if rb < 0 then -rb else rb
+    let ra := R.f64 (relTolLit * x)
+    let ra := if ra < 0 then -ra else ra
+    decide (diff ≤ rb) || decide (diff ≤ ra) || decide (diff ≤ 0)
+  | _, _ => false
+
 def min_ (l : List Val) : Val :=
   match l with
   | [] => err
